@@ -399,7 +399,8 @@ func (r *c13Run) probe(p c13Probe) error {
 		if err := r.checkBlock("after " + desc); err != nil {
 			return err
 		}
-		if worldContains(after.Block, before.Current) == p.NotBlocked {
+		// (only a backward revert leaves the reverted-from revision after the new current)
+		if c13Index(before.Seq, target) < ci && worldContains(after.Block, before.Current) == p.NotBlocked {
 			return verifkit.Violatef("C13: after %s the reverted-from revision %d blocked=%v, requested NotBlocked=%v", desc, before.Current, !p.NotBlocked, p.NotBlocked)
 		}
 		// classes
